@@ -39,9 +39,10 @@ type c15Case struct {
 	SameFile string `json:"sameFile"` // "" | input | identity | recipients
 	Spelling int    `json:"spelling"`
 	Umask    int    `json:"umask"`
-	NKeys    int    `json:"nkeys"` // keygen-y: identities in the input
-	Long     bool   `json:"long"`  // long spellings of the flags (--decrypt, --output, ...)
-	Dash     bool   `json:"dash"`  // "-" for standard input / output where it applies
+	NKeys    int    `json:"nkeys"`   // keygen-y: identities in the input
+	Long     bool   `json:"long"`    // long spellings of the flags (--decrypt, --output, ...)
+	Dash     bool   `json:"dash"`    // "-" for standard input / output where it applies
+	Symlink  bool   `json:"symlink"` // same-file cases: the input / key file is itself a symbolic link
 }
 
 var c15LongFlags = map[string]string{"-d": "--decrypt", "-e": "--encrypt", "-o": "--output", "-a": "--armor", "-p": "--passphrase", "-r": "--recipient", "-R": "--recipients-file", "-i": "--identity"}
@@ -333,6 +334,9 @@ func c15Check(c c15Case, st *stats.Run) error {
 	case "i-without-e":
 		args = []string{"-i", "key.txt"}
 		valid = false
+	case "input-dir":
+		// the input cannot be read (it is a directory): the run must fail, but
+		// an encryption may already have written its header
 	case "R-stdin", "R-stdin-conflict":
 		// recipients file read from standard input
 		args = []string{"-R", "-"}
@@ -390,6 +394,13 @@ func c15Check(c c15Case, st *stats.Run) error {
 	if sameTarget != "" {
 		outPath = spell(sameTarget, dir, c.Spelling)
 		launch, stdoutMode = "", ""
+		if c.Symlink {
+			// the file the user names is a symbolic link into another directory
+			os.Mkdir(filepath.Join(dir, "store"), 0o755)
+			if err := os.Rename(filepath.Join(dir, sameTarget), filepath.Join(dir, "store", sameTarget)); err == nil {
+				os.Symlink(filepath.Join("store", sameTarget), filepath.Join(dir, sameTarget))
+			}
+		}
 	}
 	if outPath != "" {
 		args = append(args, "-o", outPath)
@@ -401,6 +412,9 @@ func c15Check(c c15Case, st *stats.Run) error {
 		if !c.Stdin {
 			args = append(args, "in.dat")
 		}
+	} else if c.Flags == "input-dir" {
+		c.Stdin = false
+		args = append(args, "d")
 	} else if c.Stdin {
 		stdin = input
 	} else {
@@ -445,6 +459,9 @@ func c15Check(c c15Case, st *stats.Run) error {
 		outputOK = total <= c.OutLimit
 	}
 	inputOK := c.Op == "enc" || (c.Damage == "none" && c.Ident == "right")
+	if c.Flags == "input-dir" {
+		inputOK = false
+	}
 	expectSuccess := valid && inputOK && outputOK && !sameFileHit
 	unspecified := false
 	if c.Out == "pipe-close" && !outputOK && total <= c.OutLimit+200000 {
@@ -1009,6 +1026,9 @@ func c15Gen(t *rapid.T) c15Case {
 	case 1, 2:
 		c.SameFile = rapid.SampledFrom([]string{"input", "identity", "recipients"}).Draw(t, "sameFile")
 		c.Spelling = rapid.IntRange(0, 5).Draw(t, "spelling")
+		c.Symlink = rapid.IntRange(0, 2).Draw(t, "symlink") == 0
+	case 3:
+		c.Flags = "input-dir"
 	}
 	return c
 }
@@ -1065,13 +1085,16 @@ func TestC15(t *testing.T) {
 				{Op: "enc", Key: "x25519-R", SameFile: "recipients"}, {Op: "dec", Key: "ed25519", SameFile: "identity"},
 			} {
 				cs.Spelling, cs.PlainLen, cs.Damage, cs.Ident, cs.Umask, cs.Out = sp, 50, "none", "right", -1, "new"
-				if s.Mine(n) {
-					yield(cs)
+				for _, sl := range []bool{false, true} {
+					cs.Symlink = sl
+					if s.Mine(n) {
+						yield(cs)
+					}
+					n++
 				}
-				n++
 			}
 		}
-		s.St.Exhaust("-o naming the input, an identity file or a recipients file under 6 lexical spellings", int64(n))
+		s.St.Exhaust("-o naming the input, an identity file or a recipients file under 6 lexical spellings, the named file being a regular file or a symbolic link", int64(n))
 	}, check)
 	// keygen: exhaustive small grid
 	pbt.Each(s, "cli-keygen", func(yield func(c15Case)) {
